@@ -261,7 +261,7 @@ func c18FurtherProfile() *Profile {
 
 func TestC18(t *testing.T) {
 	st := statsFor("C18")
-	st.Rule = "(a) generated histories under every configuration; after every op (after a flush in async mode) an independent walker (own directory listing, gunzip and encoding/json; no sod code) checks: collection directory named props.Doc / props._doc (snake case, constants recorded from the pinned release), exactly schema.json plus one file <uuid><ext>[.gz] per model object, gzip iff configured, body == plain JSON of the object; schema.json decoded with the walker's own structs: settings, object-ids bijection, one index per indexed path with name/cast, [value,id] tuples in non-increasing order whose values equal the file values. (b) golden corpus: every directory under /verif/golden (written by the pinned release e481c06 under all configurations, with the expected contents recorded next to it) is copied, opened by the current code and must show the recorded objects on every read path, the full search sweep (every operator x every stored value and neighbours on every indexed path and 6 fixed paths), AssignIndex order and Control; then generated further writes (incl. unique conflicts) are applied against the model, the database is reopened, compared again and walked. Non-trivial: (a) >= 2 objects, >= 1 indexed path, non-default configuration; (b) every golden case. Distinct by program hash (golden: directory + further ops)."
+	st.Rule = "(a) generated histories under every configuration; after every op (after a flush in async mode) an independent walker (own directory listing, gunzip and encoding/json; no sod code) checks: collection directory named props.Doc / props._doc (snake case, constants recorded from the pinned release), exactly schema.json plus one file <uuid><ext>[.gz] per model object, gzip iff configured, body == plain JSON of the object; schema.json decoded with the walker's own structs: settings, object-ids bijection, one index per indexed path with name/cast, [value,id] tuples in non-increasing order whose values equal the file values. (b) golden corpus: every directory under /verif/golden (written by the pinned release e481c06 under all configurations, with the expected contents recorded next to it) is copied, opened by the current code and must show the recorded objects on every read path, the full search sweep (every operator x every stored value and neighbours on every indexed path and 6 fixed paths), AssignIndex order and Control; then generated further writes (incl. unique conflicts) are applied against the model, the database is reopened, compared again and walked. TestC18Types: /verif/golden-types was written by the pinned release for a struct whose fields are defined types (from time.Time, string, int), containers, an interface slot, an anonymous struct, an array, a pointer and an unexported member: same descriptors, same objects, the same answer (result or error) to ten searches, one more insert, Close, reopen, Control. Non-trivial: (a) >= 2 objects, >= 1 indexed path, non-default configuration; (b) every golden case. Distinct by program hash (golden: directory + further ops)."
 	st.Assumptions = append(baseAssumptions(), "the golden corpus was produced by driving the pinned release with generated histories restricted to what it handles without tripping over its since-repaired defects (no reopen, no queries), and each directory was verified against the model by the independent walker before it was recorded")
 	t.Run("golden", func(t *testing.T) {
 		dirs := goldenDirs()
